@@ -114,31 +114,39 @@ def validate_histories(c, trace, build, label, workers=8):
     """TLC-validate a recorded history file against the ideal stream spec; report rejects."""
     recs = vlib.read_ndjson(trace)
     eps = vlib.episodes(recs)
-    # canary episode: corrupt one output byte of a successful apply
-    can = None
+    # canary episodes: copies of recorded prefixes with one output byte of the last (successful) apply corrupted
+    cans = []          # (original start index (0-based), prefix length)
+    full = list(recs)
+    pos0 = 0
     for ep in eps:
+        if len(cans) >= 3:
+            break
         for j, e in enumerate(ep):
             if e["ev"] == "apply" and e["res"] == "ok" and e["n"] > 0:
                 can = copy.deepcopy(ep[: j + 1])
                 can[j]["after"][0] ^= 1
+                cans.append((pos0, j + 1, len(full)))
+                full += can
                 break
-        if can:
-            break
-    full = recs + (can or [])
+        pos0 += len(ep)
     vlib.write_ndjson(trace, full)
     rej, r = vlib.validate_trace("TraceStream", trace, workers=workers, timeout=3000)
-    idx = sorted(l for l, _ in rej)
-    if can:
-        if len(full) not in idx:
-            raise vlib.ToolError("canary episode was not rejected: stream trace validation is not binding")
-        idx.remove(len(full))
-    # vacuity guard: every event of every non-rejected episode must have been consumed
-    rejected_eps = 0
+    allidx = sorted(l for l, _ in rej)
+    idx = [l for l in allidx if l <= len(recs)]
+    conclusive = 0
+    for (o, ln, cstart) in cans:
+        if any(o < l <= o + ln for l in idx):
+            continue          # the original prefix itself is rejected: this canary says nothing
+        conclusive += 1
+        if (cstart + ln) not in allidx:
+            raise vlib.ToolError("canary episode was not rejected at its corrupted event: stream trace validation is not binding")
+    c.cov["canaries_conclusive"] = c.cov.get("canaries_conclusive", 0) + conclusive
+    # vacuity guard: every event of every episode must have been consumed up to its first rejection
     starts = [i for i, e in enumerate(full) if e["k"] == 0] + [len(full)]
     consumed = 0
-    for a, b in zip(starts, starts[1:]):
-        bad = [l for l in (idx + ([len(full)] if can else [])) if a < l <= b]
-        consumed += (min(bad) - a) if bad else (b - a)
+    for a_, b_ in zip(starts, starts[1:]):
+        bad = [l for l in allidx if a_ < l <= b_]
+        consumed += (min(bad) - a_) if bad else (b_ - a_)
     if r["distinct"] != consumed:
         raise vlib.ToolError("vacuity guard: TLC consumed %d events, expected %d" % (r["distinct"], consumed))
     for l in idx:
